@@ -163,6 +163,105 @@ theorem eexecPlain_history_free (hS : M.Sound) (hns : ∀ f, M.sticky f = false)
 
 end Machine
 
+
+/-! ## Histories that mix run kinds -/
+
+namespace Machine
+section kinds
+variable {F V D R K : Type} [DecidableEq F] (M : Machine F V (K × D) R) (keeps : K → F → Bool) (re : K → Bool)
+
+theorem runK_keeps_settings (m : F → V) (k : K) (d : D) (f : F) (h : M.setting f = true) :
+    (M.runK keeps m k d).1 f = m f := by
+  simp only [runK]
+  split
+  · rfl
+  · exact M.run_keeps_settings m (k, d) f h
+
+theorem runK_keeps (m : F → V) (k : K) (d : D) (f : F) (h : keeps k f = true) :
+    (M.runK keeps m k d).1 f = m f := by
+  simp only [runK, h, if_true]
+
+/-- A run (successful or not) of a kind that leaves the sticky fields alone, then reset: the object
+    is a newly created object with the user's settings again — nothing has to be re-applied. -/
+theorem reinit_runK (hS : M.Sound) (hst : ∀ f, M.sticky f = true → M.reinitAssign f = none)
+    (s : F → V) (k : K) (d : D) (hkk : ∀ f, M.sticky f = true → keeps k f = true) :
+    M.reinit (M.runK keeps (M.created s) k d).1 = M.created s := by
+  funext f
+  cases hs : M.setting f with
+  | true =>
+    simp only [reinit, hS.keeps f hs]
+    exact M.runK_keeps_settings keeps _ k d f hs
+  | false =>
+    cases hk : M.sticky f with
+    | true =>
+      simp only [reinit, hst f hk]
+      exact M.runK_keeps keeps _ k d f (hkk f hk)
+    | false =>
+      simp only [reinit, hS.restores f hs hk, created, user, hs, hk, Bool.or_false]
+      simp
+
+/-- After any run, reset and — where the run kind requires it — re-application of the sticky
+    setters, the object is a newly created object with the user's settings. -/
+theorem after_runK (hS : M.Sound) (hst : ∀ f, M.sticky f = true → M.reinitAssign f = none)
+    (hk : ∀ k f, M.sticky f = true → re k = false → keeps k f = true) (s : F → V) (k : K) (d : D) :
+    (if re k then M.reapply s (M.reinit (M.runK keeps (M.created s) k d).1)
+     else M.reinit (M.runK keeps (M.created s) k d).1) = M.created s := by
+  cases hr : re k with
+  | true =>
+    simp only [if_true]
+    refine M.reapply_reinit hS _ s ?_
+    intro f hf
+    rw [M.runK_keeps_settings keeps _ k d f hf, M.created_setting s f hf]
+  | false =>
+    simp only [Bool.false_eq_true, if_false]
+    exact M.reinit_runK keeps hS hst s k d (fun f hf => hk k f hf hr)
+
+/-- **History freedom for histories that mix run kinds**: setter calls and runs of any kind (the body
+    is arbitrary: it may fail anywhere), reset after every run, the sticky setters called again only
+    after the run kinds that may have written them: every run gives the result of a new object with
+    the same settings. -/
+theorem kexec_history_free (hS : M.Sound) (hst : ∀ f, M.sticky f = true → M.reinitAssign f = none)
+    (hk : ∀ k f, M.sticky f = true → re k = false → keeps k f = true) :
+    ∀ (ops : List (KOp F V D K)) (s : F → V),
+      (M.kexec keeps re (M.created s) s ops).2 = M.kfresh keeps s ops := by
+  intro ops
+  induction ops with
+  | nil => intro s; rfl
+  | cons op rest ih =>
+    intro s
+    cases op with
+    | set g v =>
+      simp only [kexec, kfresh]
+      rw [M.setUser_created]
+      exact ih _
+    | run k d =>
+      simp only [kexec, kfresh]
+      rw [M.after_runK keeps re hS hst hk s k d, ih s]
+
+/-- Full strength (nothing re-applied, ever) for histories whose run kinds all leave the sticky
+    fields alone. -/
+theorem kexecPlain_history_free (hS : M.Sound) (hst : ∀ f, M.sticky f = true → M.reinitAssign f = none) :
+    ∀ (ops : List (KOp F V D K)) (s : F → V),
+      (∀ k ∈ kindsOf ops, ∀ f, M.sticky f = true → keeps k f = true) →
+      (M.kexecPlain keeps (M.created s) ops).2 = M.kfresh keeps s ops := by
+  intro ops
+  induction ops with
+  | nil => intro s _; rfl
+  | cons op rest ih =>
+    intro s hall
+    cases op with
+    | set g v =>
+      simp only [kexecPlain, kfresh]
+      rw [M.setUser_created]
+      exact ih _ (fun k hk => hall k (by simpa [kindsOf] using hk))
+    | run k d =>
+      simp only [kexecPlain, kfresh]
+      rw [M.reinit_runK keeps hS hst s k d (hall k (by simp [kindsOf])),
+          ih s (fun k' hk' => hall k' (by simp [kindsOf, hk']))]
+
+end kinds
+end Machine
+
 /-! ## From the decidable structural facts to `Sound` -/
 
 theorem assignedValue_some_mem {stores : List Store} {field v : String}
@@ -230,5 +329,92 @@ theorem machineOf_sound {D R : Type} (o : Obj) (body : (String → String) → D
 
 theorem not_sticky_of_nil (o : Obj) (h : stickyList o = []) : ∀ f, isSticky o f = false := by
   intro f; unfold isSticky; rw [h]; rfl
+
+
+/-- One pass over what a run writes decides the field-by-field statement. -/
+theorem keepsAll_iff (o : Obj) (k l : List String) :
+    keepsAll o k l = true ↔ ∀ f ∈ l, keepsNet o k f = true := by
+  unfold keepsAll keepsNet
+  rw [List.all_eq_true]
+  constructor
+  · intro h f hf
+    cases hc : (runWritten o k).contains f with
+    | false => rfl
+    | true =>
+      exfalso
+      have hm : f ∈ runWritten o k := by simpa using hc
+      have := h f hm
+      simp [hf] at this
+  · intro h x hx
+    cases hc : l.contains x with
+    | false => rfl
+    | true =>
+      exfalso
+      have hm : x ∈ l := by simpa using hc
+      have := h x hm
+      simp [hx] at this
+
+theorem reapplyAfter_eq (o : Obj) (k : List String) :
+    reapplyAfter o k = !keepsAll o k (stickyList o) := by
+  cases h : keepsAll o k (stickyList o) with
+  | true =>
+    have h' := (keepsAll_iff o k _).mp h
+    unfold reapplyAfter
+    cases ha : (stickyList o).any (fun f => !keepsNet o k f) with
+    | false => rfl
+    | true =>
+      exfalso
+      obtain ⟨f, hf, hb⟩ := List.any_eq_true.mp ha
+      simp [h' f hf] at hb
+  | false =>
+    unfold reapplyAfter
+    cases ha : (stickyList o).any (fun f => !keepsNet o k f) with
+    | true => rfl
+    | false =>
+      exfalso
+      have : keepsAll o k (stickyList o) = true := by
+        rw [keepsAll_iff]
+        intro f hf
+        cases hk : keepsNet o k f with
+        | true => rfl
+        | false =>
+          exfalso
+          have : (stickyList o).any (fun f => !keepsNet o k f) = true :=
+            List.any_eq_true.mpr ⟨f, hf, by simp [hk]⟩
+          rw [this] at ha
+          cases ha
+      rw [this] at h
+      cases h
+
+/-- By construction: a run kind after which nothing is re-applied keeps every sticky field. -/
+theorem keepsNet_of_not_reapply (o : Obj) (k : List String) (f : String)
+    (hf : isSticky o f = true) (hr : reapplyAfter o k = false) : keepsNet o k f = true := by
+  unfold isSticky at hf
+  have hmem : f ∈ stickyList o := by simpa using hf
+  unfold reapplyAfter at hr
+  cases h : keepsNet o k f with
+  | true => rfl
+  | false =>
+    exfalso
+    have : (stickyList o).any (fun f => !keepsNet o k f) = true :=
+      List.any_eq_true.mpr ⟨f, hmem, by simp [h]⟩
+    rw [this] at hr
+    cases hr
+
+/-- The reset function does not assign the sticky fields (Bool fact over the tables → machine). -/
+theorem reinitAssign_none_of_leaves (o : Obj) (h : reinitLeavesSticky o = true) (f : String)
+    (hf : isSticky o f = true) : reinitValue o f = none := by
+  cases hv : reinitValue o f with
+  | none => rfl
+  | some v =>
+    exfalso
+    obtain ⟨s, hs, hsf⟩ := assignedValue_some_mem hv
+    have hs' : s ∈ reinitStores o := (List.mem_filter.mp hs).1
+    have := (List.all_eq_true.mp h) s hs'
+    rw [hsf] at this
+    unfold isSticky at hf
+    have hmem : f ∈ stickyList o := by simpa using hf
+    simp at this
+    exact this hmem
 
 end Wbxml.Model.Objects
